@@ -85,6 +85,9 @@ func synSetup4(args ...string) (handler.Handler4, error) {
 		time.Sleep(time.Duration(d))
 	}
 	beh, id := args[0], args[1]
+	logMu.Lock()
+	setupCalls["4/"+id]++
+	logMu.Unlock()
 	switch beh {
 	case "setupfail":
 		return nil, fmt.Errorf("syn %s: setup fails on purpose", id)
@@ -151,6 +154,9 @@ func synSetup6(args ...string) (handler.Handler6, error) {
 		time.Sleep(time.Duration(d))
 	}
 	beh, id := args[0], args[1]
+	logMu.Lock()
+	setupCalls["6/"+id]++
+	logMu.Unlock()
 	switch beh {
 	case "setupfail":
 		return nil, fmt.Errorf("syn %s: setup fails on purpose", id)
@@ -251,6 +257,9 @@ type OCase struct {
 	// Relay6: the DHCPv6 request arrives through that many Relay-Forward layers (what is sent is then
 	// the response returned last inside as many Relay-Reply layers)
 	Relay6 int `json:"relay6,omitempty"`
+	// Reload: plugins.LoadPlugins is called a second time on the same configuration value and the
+	// whole comparison is repeated with the handlers it returns
+	Reload bool `json:"reload,omitempty"`
 }
 
 // GenO draws a configuration
@@ -301,6 +310,7 @@ func GenO(t *rapid.T) OCase {
 		}
 	}
 	c.ViaYAML = rapid.IntRange(0, 2).Draw(t, "via-yaml") == 0
+	c.Reload = rapid.IntRange(0, 3).Draw(t, "reload") == 0
 	if rapid.IntRange(0, 2).Draw(t, "relayed6") == 0 {
 		c.Relay6 = rapid.IntRange(1, 2).Draw(t, "relay6")
 	}
@@ -452,108 +462,133 @@ func ExecO(c OCase) (res core.Result) {
 		res.Classes = append(res.Classes, "via-yaml")
 	}
 	interesting := false
-	// ---- DHCPv4 dispatch
-	if c.Has4 {
-		logMu.Lock()
-		invLog = nil
-		lastRet = map[uint64][]byte{}
-		logMu.Unlock()
-		p := gen.Pkt4{Op: 1, HType: 1, HLen: 6, Xid: 0x0c130004, CHAddr: "020000000001", GIAddr: "10.9.9.9"}
-		p.Opts = []gen.Opt4{{Code: 53, Hex: "01"}}
-		sent, pan := feed4(server.NewCapture4(h4, nil), p.Bytes(), &ipv4.ControlMessage{IfIndex: 1}, &net.UDPAddr{IP: net.IPv4(10, 9, 9, 9), Port: 67})
-		if pan != nil {
-			res.Viol = core.Violate("C13/panic", "HandleMsg4 panicked: %v", pan)
-			return
-		}
-		wantLog, final, wantSent := expectRun(c.L4, ids4, 4)
-		if v := cmpLog(wantLog, 0x0c130004); v != nil {
-			res.Viol = v
-			return
-		}
-		if wantSent != (len(sent) == 1) {
-			res.Viol = core.Violate("C13/v4/sent-mismatch", "chain %v: %d datagrams sent, expected sent=%v", c.L4, len(sent), wantSent)
-			return
-		}
-		if wantSent {
-			rep, err := dhcpv4.FromBytes(sent[0].Payload)
-			if err != nil || markers4(rep) != final {
-				res.Viol = core.Violate("C13/v4/wrong-response-sent", "chain %v: the reply carries markers %q, the response returned last carries %q (err %v)", c.L4, markers4safe(rep), final, err)
-				return
-			}
-			if snap, ok := returnedLast(4, 0x0c130004); ok && len(ids4) > 0 {
-				a, errA := canon4(snap)
-				b, errB := canon4(sent[0].Payload)
-				if errA == nil && errB == nil && a != b {
-					res.Viol = core.Violate("C13/v4/sent-differs-from-response-returned-last", "chain %v: the last handler returned (as it was when it returned, options in code order)\n  %s\nwhat was sent is\n  %s", c.L4, a, b)
-					return
-				}
-			}
-		}
-		if len(ids4) >= 2 {
-			interesting = interesting || stopsEarlyOrReplaces(c.L4, ids4)
-		}
+	rounds := 1
+	if c.Reload {
+		rounds = 2
 	}
-	if c.Has6 {
-		logMu.Lock()
-		invLog = nil
-		lastRet = map[uint64][]byte{}
-		logMu.Unlock()
-		m := gen.Msg6Spec{Type: gen.M6Solicit, Xid: 0x130006, Client: 0}
-		for r := 0; r < c.Relay6; r++ {
-			m.Relays = append(m.Relays, gen.Relay6Spec{Type: gen.M6RelayForw, Hop: uint8(c.Relay6 - 1 - r), Link: "2001:db8:ffff::1", Peer: "fe80::1", IfaceID: "6966" + fmt.Sprintf("%02x", r)})
+	secondRound := false
+	defer func() {
+		if secondRound && res.Viol != nil {
+			res.Viol.Message = "after plugins.LoadPlugins was called a second time on the same configuration value (a restart of the servers): " + res.Viol.Message
 		}
-		sent, pan := feed6(server.NewCapture6(h6, nil), m.Bytes(), &ipv6.ControlMessage{IfIndex: 1}, &net.UDPAddr{IP: net.ParseIP("2001:db8::9"), Port: 546})
-		if pan != nil {
-			res.Viol = core.Violate("C13/panic", "HandleMsg6 panicked: %v", pan)
-			return
-		}
-		wantLog, final, wantSent := expectRun(c.L6, ids6, 6)
-		if v := cmpLog(wantLog, 0x130006); v != nil {
-			res.Viol = v
-			return
-		}
-		if wantSent != (len(sent) == 1) {
-			res.Viol = core.Violate("C13/v6/sent-mismatch", "chain %v: %d datagrams sent, expected sent=%v", c.L6, len(sent), wantSent)
-			return
-		}
-		if wantSent {
-			rep, err := dhcpv6.FromBytes(sent[0].Payload)
-			if err == nil && c.Relay6 > 0 {
-				depth := 0
-				for cur := rep; cur != nil && cur.IsRelay(); depth++ {
-					inner, ierr := cur.(*dhcpv6.RelayMessage).GetInnerMessage()
-					_ = inner
-					if ierr != nil {
-						break
-					}
-					next := cur.(*dhcpv6.RelayMessage).Options.RelayMessage()
-					cur = next
-				}
-				if depth != c.Relay6 {
-					res.Viol = core.Violate("C13/v6/wrong-response-sent", "chain %v: a request relayed %d times was answered inside %d relay layers", c.L6, c.Relay6, depth)
-					return
-				}
-				var im *dhcpv6.Message
-				im, err = rep.GetInnerMessage()
-				if err == nil {
-					rep = im
-				}
-			}
-			if err != nil || markers6(rep) != final {
-				res.Viol = core.Violate("C13/v6/wrong-response-sent", "chain %v: the reply carries other markers than the response returned last (%q, err %v)", c.L6, final, err)
+	}()
+	for round := 0; round < rounds; round++ {
+		if round == 1 {
+			secondRound = true
+			res.Classes = append(res.Classes, "loaded-twice")
+			h4, h6, err = plugins.LoadPlugins(conf)
+			if err != nil {
+				res.Viol = core.Violate("C13/load-rejects-valid", "LoadPlugins failed: %v (v4 %v v6 %v)", err, c.L4, c.L6)
 				return
 			}
-			if snap, ok := returnedLast(6, 0x130006); ok && len(ids6) > 0 {
-				a, errA := canon6(snap)
-				b, errB := canon6(rep.ToBytes())
-				if errA == nil && errB == nil && a != b {
-					res.Viol = core.Violate("C13/v6/sent-differs-from-response-returned-last", "chain %v (relayed %d times): the last handler returned (as it was when it returned, options sorted)\n  %s\nthe message that was sent is\n  %s", c.L6, c.Relay6, a, b)
-					return
-				}
+			if len(h4) != len(ids4) || len(h6) != len(ids6) {
+				res.Viol = core.Violate("C13/handler-count", "LoadPlugins returned %d/%d handlers, the configuration lists %d/%d plugins supporting the protocols", len(h4), len(h6), len(ids4), len(ids6))
+				return
 			}
 		}
-		if len(ids6) >= 2 {
-			interesting = interesting || stopsEarlyOrReplaces(c.L6, ids6)
+		// ---- DHCPv4 dispatch
+		if c.Has4 {
+			logMu.Lock()
+			invLog = nil
+			lastRet = map[uint64][]byte{}
+			logMu.Unlock()
+			p := gen.Pkt4{Op: 1, HType: 1, HLen: 6, Xid: 0x0c130004, CHAddr: "020000000001", GIAddr: "10.9.9.9"}
+			p.Opts = []gen.Opt4{{Code: 53, Hex: "01"}}
+			sent, pan := feed4(server.NewCapture4(h4, nil), p.Bytes(), &ipv4.ControlMessage{IfIndex: 1}, &net.UDPAddr{IP: net.IPv4(10, 9, 9, 9), Port: 67})
+			if pan != nil {
+				res.Viol = core.Violate("C13/panic", "HandleMsg4 panicked: %v", pan)
+				return
+			}
+			wantLog, final, wantSent := expectRun(c.L4, ids4, 4)
+			if v := cmpLog(wantLog, 0x0c130004); v != nil {
+				res.Viol = v
+				return
+			}
+			if wantSent != (len(sent) == 1) {
+				res.Viol = core.Violate("C13/v4/sent-mismatch", "chain %v: %d datagrams sent, expected sent=%v", c.L4, len(sent), wantSent)
+				return
+			}
+			if wantSent {
+				rep, err := dhcpv4.FromBytes(sent[0].Payload)
+				if err != nil || markers4(rep) != final {
+					res.Viol = core.Violate("C13/v4/wrong-response-sent", "chain %v: the reply carries markers %q, the response returned last carries %q (err %v)", c.L4, markers4safe(rep), final, err)
+					return
+				}
+				if snap, ok := returnedLast(4, 0x0c130004); ok && len(ids4) > 0 {
+					a, errA := canon4(snap)
+					b, errB := canon4(sent[0].Payload)
+					if errA == nil && errB == nil && a != b {
+						res.Viol = core.Violate("C13/v4/sent-differs-from-response-returned-last", "chain %v: the last handler returned (as it was when it returned, options in code order)\n  %s\nwhat was sent is\n  %s", c.L4, a, b)
+						return
+					}
+				}
+			}
+			if len(ids4) >= 2 {
+				interesting = interesting || stopsEarlyOrReplaces(c.L4, ids4)
+			}
+		}
+		if c.Has6 {
+			logMu.Lock()
+			invLog = nil
+			lastRet = map[uint64][]byte{}
+			logMu.Unlock()
+			m := gen.Msg6Spec{Type: gen.M6Solicit, Xid: 0x130006, Client: 0}
+			for r := 0; r < c.Relay6; r++ {
+				m.Relays = append(m.Relays, gen.Relay6Spec{Type: gen.M6RelayForw, Hop: uint8(c.Relay6 - 1 - r), Link: "2001:db8:ffff::1", Peer: "fe80::1", IfaceID: "6966" + fmt.Sprintf("%02x", r)})
+			}
+			sent, pan := feed6(server.NewCapture6(h6, nil), m.Bytes(), &ipv6.ControlMessage{IfIndex: 1}, &net.UDPAddr{IP: net.ParseIP("2001:db8::9"), Port: 546})
+			if pan != nil {
+				res.Viol = core.Violate("C13/panic", "HandleMsg6 panicked: %v", pan)
+				return
+			}
+			wantLog, final, wantSent := expectRun(c.L6, ids6, 6)
+			if v := cmpLog(wantLog, 0x130006); v != nil {
+				res.Viol = v
+				return
+			}
+			if wantSent != (len(sent) == 1) {
+				res.Viol = core.Violate("C13/v6/sent-mismatch", "chain %v: %d datagrams sent, expected sent=%v", c.L6, len(sent), wantSent)
+				return
+			}
+			if wantSent {
+				rep, err := dhcpv6.FromBytes(sent[0].Payload)
+				if err == nil && c.Relay6 > 0 {
+					depth := 0
+					for cur := rep; cur != nil && cur.IsRelay(); depth++ {
+						inner, ierr := cur.(*dhcpv6.RelayMessage).GetInnerMessage()
+						_ = inner
+						if ierr != nil {
+							break
+						}
+						next := cur.(*dhcpv6.RelayMessage).Options.RelayMessage()
+						cur = next
+					}
+					if depth != c.Relay6 {
+						res.Viol = core.Violate("C13/v6/wrong-response-sent", "chain %v: a request relayed %d times was answered inside %d relay layers", c.L6, c.Relay6, depth)
+						return
+					}
+					var im *dhcpv6.Message
+					im, err = rep.GetInnerMessage()
+					if err == nil {
+						rep = im
+					}
+				}
+				if err != nil || markers6(rep) != final {
+					res.Viol = core.Violate("C13/v6/wrong-response-sent", "chain %v: the reply carries other markers than the response returned last (%q, err %v)", c.L6, final, err)
+					return
+				}
+				if snap, ok := returnedLast(6, 0x130006); ok && len(ids6) > 0 {
+					a, errA := canon6(snap)
+					b, errB := canon6(rep.ToBytes())
+					if errA == nil && errB == nil && a != b {
+						res.Viol = core.Violate("C13/v6/sent-differs-from-response-returned-last", "chain %v (relayed %d times): the last handler returned (as it was when it returned, options sorted)\n  %s\nthe message that was sent is\n  %s", c.L6, c.Relay6, a, b)
+						return
+					}
+				}
+			}
+			if len(ids6) >= 2 {
+				interesting = interesting || stopsEarlyOrReplaces(c.L6, ids6)
+			}
 		}
 	}
 	res.NonTrivial = interesting
@@ -566,6 +601,9 @@ func ExecO(c OCase) (res core.Result) {
 // lastRet: per protocol and request transaction id, the wire form of what the handler invoked
 // last returned, taken at the moment it returned (nil response: no entry value)
 var lastRet = map[uint64][]byte{}
+
+// setupCalls counts the calls of the synthetic setup functions per "<protocol>/<entry id>"
+var setupCalls = map[string]int{}
 
 func returnedLast(proto int, xid uint32) ([]byte, bool) {
 	logMu.Lock()
